@@ -169,6 +169,12 @@ def plan(tier, seed):
             p["hookcl"] = True
         return p
 
+    def with_hdronly(p, prob):
+        """some programs: every outline has an additional Examples table without rows"""
+        if rnd.random() < prob:
+            p["hdronly"] = True
+        return p
+
     def with_skips(p, prob):
         """some programs: a before_feature / before_rule / before_scenario hook excludes its element at run time"""
         if rnd.random() < prob:
@@ -252,7 +258,7 @@ def plan(tier, seed):
         for p in G.family_scen(2):
             out.append((with_o2(p), [G.cfg(), rcfg()], rfaults(p, 2)))
         for p in G.family_tree(rnd, 260):
-            p = with_hookcl(with_skips(with_o2(p), 0.2), 0.3)
+            p = with_hdronly(with_hookcl(with_skips(with_o2(p), 0.2), 0.3), 0.2)
             out.append((p, [dict(c, retry=False) for c in (rcfg(), rcfg())] if p.get("skips") else [rcfg(), rcfg()], rfaults(p, 2)))
         for p in G.family_big(rnd, 40):
             out.append((with_o2(p), [rcfg()], rfaults(p, 2)))
@@ -281,7 +287,7 @@ def plan(tier, seed):
                     G.cfg(show_skipped=False, capture=(alt % 2 == 0, alt % 3 == 0, alt % 5 == 0))]
             out.append((p, cfgs, [[0, 0]] + spread(nh, 3)))
         for p in G.family_tree(rnd, 1000):
-            p = with_hookcl(with_skips(with_o2(p), 0.2), 0.3)
+            p = with_hdronly(with_hookcl(with_skips(with_o2(p), 0.2), 0.3), 0.2)
             nh = G.count_hooks_upper(G.flatten(p))
             cf = [rcfg(), rcfg()]
             out.append((p, [dict(c, retry=False) for c in cf] if p.get("skips") else cf, [[0, 0]] + spread(nh, 6) + rfaults(p, 2)[1:]))
@@ -298,7 +304,7 @@ def shared(chk, part="core"):
     """Run (or load) the shared stage for this tree / tier / seed.  Returns a dict:
        n_runs, tlc: [{module,cfg,distinct,generated,wall,coverage}], verdicts: {clause: [ {key, ...} ]},
        divergences, samples, design_violations"""
-    key = tree_key({"tier": chk.tier, "seed": chk.seed, "part": part, "v": 18})
+    key = tree_key({"tier": chk.tier, "seed": chk.seed, "part": part, "v": 19})
     os.makedirs(CACHE, exist_ok=True)
     # one entry per (part, tier, repository location): runs against a mutated copy must not evict /repo's entry
     prefix = "%s-%s-%s-" % (part, chk.tier, hashlib.sha256(REPO.encode()).hexdigest()[:8])
